@@ -2,6 +2,7 @@
 (a negative control: the checks must stay silent on it).  usage: benign_prompt.py C07 /tmp/wt/C07n"""
 import json,sys
 pid,wt=sys.argv[1],sys.argv[2]
+extra=sys.argv[3] if len(sys.argv)>3 else ""
 p=[json.loads(l) for l in open('/verif/properties.jsonl') if json.loads(l)['id']==pid][0]
 print(f"""You are helping to evaluate a verification tool. Your job is to act as a careful maintainer doing a harmless cleanup.
 
@@ -12,7 +13,7 @@ Here is a semantic property that the library satisfies and MUST STILL SATISFY af
   Property {p['id']}: {p['title']}
   Statement: {p['statement']}
 
-TASK. Make ONE realistic, BEHAVIOUR-PRESERVING refactoring commit (10-40 changed lines, one to three functions) in the library code that implements the behaviour described by this property -- the kind of cleanup a maintainer really does: rename local variables, reorder independent statements, introduce or inline a local variable, extract a small private helper or inline one, replace an idiom by an exactly equivalent one (e.g. an if/elif chain by early returns, a loop by a comprehension, `a if c else b`, De Morgan on a condition, `np.r_[...]` by `np.array([...])`, `x @ y` by `np.matmul(x, y)`, a tuple membership test for an `or` of equalities), tidy comments and docstrings, split a long expression into named parts. The change must NOT alter any observable behaviour: same results (bit-for-bit or to rounding), same exceptions for the same inputs, same mutation/aliasing behaviour, same accepted argument forms. Do not fix bugs, do not change tolerances, do not add features.
+TASK. Make ONE realistic, BEHAVIOUR-PRESERVING refactoring commit (10-40 changed lines, one to three functions) in the library code that implements the behaviour described by this property -- the kind of cleanup a maintainer really does: rename local variables, reorder independent statements, introduce or inline a local variable, extract a small private helper or inline one, replace an idiom by an exactly equivalent one (e.g. an if/elif chain by early returns, a loop by a comprehension, `a if c else b`, De Morgan on a condition, `np.r_[...]` by `np.array([...])`, `x @ y` by `np.matmul(x, y)`, a tuple membership test for an `or` of equalities), tidy comments and docstrings, split a long expression into named parts. The change must NOT alter any observable behaviour: same results (bit-for-bit or to rounding), same exceptions for the same inputs, same mutation/aliasing behaviour, same accepted argument forms. Do not fix bugs, do not change tolerances, do not add features.{extra}
 
 HOW TO RUN THINGS (no network; do not pip install anything):
   * interpreter: /venv/bin/python . A script under `{wt}/seed/` must insert the worktree root into sys.path itself (sys.path.insert(0, <worktree root>)) so that `import spatialmath` picks up YOUR worktree.
